@@ -465,7 +465,10 @@ pub fn w_msg(max_depth: u32) -> BoxedStrategy<WMsg> {
     let plain = (any::<u16>(), any::<u16>(), any::<u32>(), count(0, 3, 6).prop_flat_map(move |n| vec(w_group(max_depth), n)), payload()).prop_map(|(version, code, request_id, groups, payload)| WMsg { version, code, request_id, groups, payload });
     // 4 %: a message holding one wide attribute
     let wide = (any::<u16>(), any::<u16>(), any::<u32>(), w_group(1), w_wide_attr(), group_tag(), payload()).prop_map(|(version, code, request_id, mut g, wide, tag, payload)| {
-        g.attrs.retain(|a| a.name != wide.name);
+        // (unique also after the replacement of undecodable octets: the invalid name e9 and the valid name
+        // U+FFFD are read as the same text)
+        let wide_key = crate::refcodec::replaced_name_key(&wide.name);
+        g.attrs.retain(|a| crate::refcodec::replaced_name_key(&a.name) != wide_key);
         g.attrs.push(wide);
         g.tag = tag;
         WMsg { version, code, request_id, groups: vec![g], payload }
